@@ -459,6 +459,23 @@ Section Machine.
     - intros E; inversion E; subst; cbn. destruct (herm_flag ops st p); repeat split; auto.
   Qed.
 
+  (* the dense branch reads nothing of the state but the Hermitian flag: nmodes, sigma, mode, the cached solver and the
+     do_solve flag (the sparse-only options and what an earlier sparse call stored) do not influence the library call,
+     which carries no k / sigma / mode / OPinv; everything after the call (postprocess) does not take the state at all *)
+  Lemma dense_ignores_options st st2 p :
+    pencil_sparse p = false -> sHerm st = sHerm st2 ->
+    snd (response ops auto_solver st p) = snd (response ops auto_solver st2 p) /\
+    exists c, snd (response ops auto_solver st p) = Ok c /\
+              cFun c = (if herm_flag ops st p then EIGH else EIG) /\ cA c = pA p /\ cM c = pB p /\
+              cK c = None /\ cSigma c = None /\ cMode c = None /\ cOPinv c = None.
+  Proof.
+    intros Hs Hh.
+    assert (Hf : herm_flag ops st p = herm_flag ops st2 p) by (unfold herm_flag; rewrite Hh; reflexivity).
+    unfold response. fold (herm_flag ops st p). fold (herm_flag ops st2 p). fold (pencil_sparse p).
+    rewrite Hs, <- Hf. cbn [snd]. split; [reflexivity|].
+    eexists; split; [reflexivity|]. cbn. repeat split; reflexivity.
+  Qed.
+
   Lemma step_keeps_flag st o h : sHerm st = Some h -> sHerm (fst (step ops auto_solver st o)) = Some h.
   Proof.
     intros Hh. destruct o as [p|s]; cbn [step]; [|cbn; exact Hh].
